@@ -88,7 +88,7 @@ def work(ctx, tier):
             elif tl and (val.timeline is None or [t.event for t in val.timeline.events] != [mets[0][1]]):
                 ctx.viol("timeline-count-differs", f"[{e}] max_attempts=0: timeline {val.timeline} vs metric {[m[1] for m in mets]}", common.payload(sc, e, 0))
     # each call's own stream when whole calls race in threads on a shared budget / breaker / policy object
-    tconc.thread_slice(ctx, tier, common.rng_for(ctx, "threads"), ["events"], budget=True, breaker=True)
+    tconc.thread_slice(ctx, tier, common.rng_for(ctx, "threads"), ["events"], budget=True, breaker=True, long_ops=True)
     if tier != "quick":
         common.repo_suite_under_monitors(ctx, "events")
     common.flush_stats(ctx, stats)
